@@ -82,7 +82,10 @@ func (l *Lexer) nextInsideToken() token.Token {
 				tok.Type = "INT"
 			}
 
-			break
+			// readNumber stops on the byte after the number: that byte starts
+			// the next token (as after a number that begins with a digit)
+			tok.LineNumber = startLine
+			return tok
 		}
 		tok = l.newToken(token.DOT)
 	case '+':
